@@ -294,4 +294,273 @@ mutual
         (parsePairsMore_print es (g' + 1) rest hok.2 (by omega))
 end
 
+-- ------------------------------------------------------------------ constants inside lists / pairs
+theorem boolOfWord_boolWord : ∀ b : Bool, boolOfWord (boolWord b) = some b := by
+  intro b; cases b <;> decide
+
+theorem boolOfWord_none_of_head (c : Char) (cs : List Char) (h1 : c ≠ 'T') (h2 : c ≠ 'F') :
+    boolOfWord (c :: cs) = none := by
+  have e1 : ('T' == c) = false := by simpa using fun e => h1 e.symm
+  have e2 : ('F' == c) = false := by simpa using fun e => h2 e.symm
+  simp [boolOfWord, boolParseArms, chars, List.find?, e1, e2]
+
+theorem dataKindOfWord_none_of_head (c : Char) (cs : List Char)
+    (h : c ≠ 'C' ∧ c ≠ 'M' ∧ c ≠ 'L' ∧ c ≠ 'I' ∧ c ≠ 'B') : dataKindOfWord (c :: cs) = none := by
+  obtain ⟨h1, h2, h3, h4, h5⟩ := h
+  have e1 : ('C' == c) = false := by simpa using fun e => h1 e.symm
+  have e2 : ('M' == c) = false := by simpa using fun e => h2 e.symm
+  have e3 : ('L' == c) = false := by simpa using fun e => h3 e.symm
+  have e4 : ('I' == c) = false := by simpa using fun e => h4 e.symm
+  have e5 : ('B' == c) = false := by simpa using fun e => h5 e.symm
+  simp [dataKindOfWord, dataParseArms, chars, List.find?, e1, e2, e3, e4, e5]
+
+theorem boolOfWord_intChars (n : Int) : boolOfWord (intChars n) = none := by
+  obtain ⟨c, cs, hc, hd⟩ := intChars_head n
+  rw [hc]
+  apply boolOfWord_none_of_head
+  · rintro rfl; rcases hd with hd | hd <;> revert hd <;> decide
+  · rintro rfl; rcases hd with hd | hd <;> revert hd <;> decide
+
+theorem boolOfWord_kwData : ∀ k : DataKind, boolOfWord (kwData k) = none := by
+  intro k; cases k <;> decide
+
+theorem parseBigNumber_kwData : ∀ k : DataKind, parseBigNumber (kwData k) = none := by
+  intro k; cases k <;> decide
+
+theorem boolOfWord_blsWord (b : Bytes) : boolOfWord (blsWord b) = none :=
+  boolOfWord_none_of_head _ _ (by decide) (by decide)
+
+theorem dataKindOfWord_blsWord (b : Bytes) : dataKindOfWord (blsWord b) = none :=
+  dataKindOfWord_none_of_head _ _ (by decide)
+
+theorem parseBigNumber_blsWord (b : Bytes) : parseBigNumber (blsWord b) = none := by
+  simp [parseBigNumber, blsWord, isNumberWord, allDigits, isDigit]
+
+def printElemsTail : List Const → List Token
+  | [] => []
+  | c :: cs => sepTokens ++ printElem c ++ printElemsTail cs
+
+theorem printElems_cons (c : Const) (cs : List Const) :
+    printElems (c :: cs) = printElem c ++ printElemsTail cs := by
+  induction cs generalizing c with
+  | nil => simp [printElems, printElemsTail]
+  | cons e es ih => simp [printElems, printElemsTail, ih e]
+
+theorem printElem_noLeadWs (t : Ty) (c : Const) (h : constOk t c = true) : NoLeadWs (printElem c) := by
+  cases c with
+  | data d =>
+    simp only [printElem]; exact printData_noLeadWs d
+  | ml b => cases t <;> simp [constOk] at h
+  | _ => simp only [printElem, List.cons_append, List.nil_append]; exact ⟨_, _, rfl, by simp⟩
+
+theorem printElem_length (t : Ty) (c : Const) (h : constOk t c = true) : 1 ≤ (printElem c).length := by
+  obtain ⟨tk, r, e, -⟩ := printElem_noLeadWs t c h
+  rw [e]; simp
+
+theorem parseElem_rbrack (f : Nat) (t : Ty) (r : List Token) : parseElem f t (.rbrack :: r) = none := by
+  cases f <;> simp [parseElem]
+
+theorem parseElemBracket_nil (f : Nat) (t : Ty) (rest : List Token) :
+    parseElemBracket (f + 1) t (.lbrack :: .rbrack :: rest) = some ([], rest) := by
+  simp [parseElemBracket, parseElem_rbrack]
+
+theorem parseElemBracket_of (t : Ty) (c : Const) (cs : List Const) (f : Nat) (rest : List Token)
+    (hn : NoLeadWs (printElem c))
+    (hd : ∀ r, parseElem f t (printElem c ++ r) = some (c, r))
+    (hm : parseElemMore f t (printElemsTail cs ++ .rbrack :: rest) = some (cs, .rbrack :: rest)) :
+    parseElemBracket (f + 1) t (.lbrack :: (printElems (c :: cs) ++ .rbrack :: rest)) = some (c :: cs, rest) := by
+  rw [printElems_cons]
+  have h1 := skipWs_of_noLeadWs hn (printElemsTail cs ++ .rbrack :: rest)
+  simp only [List.append_assoc] at h1 ⊢
+  simp [parseElemBracket, h1, hd, hm]
+
+theorem parseElemMore_of (t : Ty) (c : Const) (cs : List Const) (f : Nat) (rest : List Token)
+    (hn : NoLeadWs (printElem c))
+    (hd : ∀ r, parseElem f t (printElem c ++ r) = some (c, r))
+    (hm : parseElemMore f t (printElemsTail cs ++ .rbrack :: rest) = some (cs, .rbrack :: rest)) :
+    parseElemMore (f + 1) t (printElemsTail (c :: cs) ++ .rbrack :: rest) = some (c :: cs, .rbrack :: rest) := by
+  have h1 := parseComma_sep (printElem c ++ (printElemsTail cs ++ .rbrack :: rest)) (hn.append _)
+  simp only [printElemsTail, List.append_assoc] at h1 ⊢
+  simp [parseElemMore, h1, hd, hm]
+
+theorem parseElemPair_of (a b : Ty) (x y : Const) (f : Nat) (rest : List Token)
+    (hnx : NoLeadWs (printElem x)) (hny : NoLeadWs (printElem y))
+    (hx : ∀ r, parseElem f a (printElem x ++ r) = some (x, r))
+    (hy : ∀ r, parseElem f b (printElem y ++ r) = some (y, r)) :
+    parseElemPair (f + 1) a b (.lpar :: (printElem x ++ sepTokens ++ printElem y ++ .rpar :: rest)) = some ((x, y), rest) := by
+  have h1 := skipWs_of_noLeadWs hnx (sepTokens ++ (printElem y ++ .rpar :: rest))
+  have h2 := parseComma_sep (printElem y ++ .rpar :: rest) (hny.append _)
+  simp only [List.append_assoc] at h1 ⊢
+  simp [parseElemPair, h1, hx, h2, hy]
+
+mutual
+  /-- a constant printed without its type (inside a list or pair) is read back given the type -/
+  theorem parseElem_print : (c : Const) → ∀ (t : Ty) (f : Nat) (rest : List Token), constOk t c = true →
+      (printElem c).length ≤ f → parseElem f t (printElem c ++ rest) = some (c, rest)
+    | .integer n => by
+      intro t f rest hok hf
+      cases t <;> simp [constOk] at hok
+      simp [printElem] at hf
+      obtain ⟨g, rfl⟩ : ∃ g, f = g + 1 := ⟨f - 1, by omega⟩
+      simp [printElem, parseElem, boolOfWord_intChars, parseBigNumber_intChars]
+    | .bytestring b => by
+      intro t f rest hok hf
+      cases t <;> simp [constOk] at hok
+      simp [printElem] at hf
+      obtain ⟨g, rfl⟩ : ∃ g, f = g + 1 := ⟨f - 1, by omega⟩
+      simp [printElem, parseElem, hexDecode_hexChars]
+    | .string s => by
+      intro t f rest hok hf
+      cases t <;> simp [constOk] at hok
+      simp [printElem] at hf
+      obtain ⟨g, rfl⟩ : ∃ g, f = g + 1 := ⟨f - 1, by omega⟩
+      simp [printElem, parseElem, unescape_escape]
+    | .unit => by
+      intro t f rest hok hf
+      cases t <;> simp [constOk] at hok
+      simp [printElem] at hf
+      obtain ⟨g, rfl⟩ : ∃ g, f = g + 1 := ⟨f - 1, by omega⟩
+      simp [printElem, parseElem]
+    | .bool b => by
+      intro t f rest hok hf
+      cases t <;> simp [constOk] at hok
+      simp [printElem] at hf
+      obtain ⟨g, rfl⟩ : ∃ g, f = g + 1 := ⟨f - 1, by omega⟩
+      simp [printElem, parseElem, boolOfWord_boolWord]
+    | .data d => by
+      intro t f rest hok hf
+      cases t <;> simp [constOk] at hok
+      simp only [printElem] at hf ⊢
+      have hl := printData_length d
+      obtain ⟨g, rfl⟩ : ∃ g, f = g + 1 := ⟨f - 1, by omega⟩
+      have hd := parseData_print d (g + 1) rest hok hf
+      cases d <;>
+        simp [printData] at hd ⊢ <;>
+        simp [parseElem, boolOfWord_kwData, parseBigNumber_kwData, dataKindOfWord_kw, hd]
+    | .g1 b => by
+      intro t f rest hok hf
+      cases t <;> simp [constOk] at hok
+      simp [printElem] at hf
+      obtain ⟨g, rfl⟩ : ∃ g, f = g + 1 := ⟨f - 1, by omega⟩
+      simp [printElem, parseElem, boolOfWord_blsWord, parseBigNumber_blsWord, dataKindOfWord_blsWord,
+        parseBlsWord_blsWord]
+    | .g2 b => by
+      intro t f rest hok hf
+      cases t <;> simp [constOk] at hok
+      simp [printElem] at hf
+      obtain ⟨g, rfl⟩ : ∃ g, f = g + 1 := ⟨f - 1, by omega⟩
+      simp [printElem, parseElem, boolOfWord_blsWord, parseBigNumber_blsWord, dataKindOfWord_blsWord,
+        parseBlsWord_blsWord]
+    | .ml b => by
+      intro t f rest hok
+      cases t <;> simp [constOk] at hok
+    | .list t' xs => by
+      intro t f rest hok hf
+      cases t <;> simp [constOk] at hok
+      obtain ⟨rfl, hxs⟩ := hok
+      simp [printElem] at hf
+      obtain ⟨g, rfl⟩ : ∃ g, f = g + 1 := ⟨f - 1, by omega⟩
+      have hb := parseElemBracket_print xs _ g rest hxs (by omega)
+      simp only [printElem, List.cons_append, List.nil_append, List.append_assoc]
+      simp [parseElem, hb]
+    | .pair a' b' x y => by
+      intro t f rest hok hf
+      cases t <;> simp [constOk] at hok
+      obtain ⟨⟨⟨rfl, rfl⟩, hx⟩, hy⟩ := hok
+      simp [printElem, sepTokens] at hf
+      obtain ⟨g, rfl⟩ : ∃ g, f = g + 1 := ⟨f - 1, by omega⟩
+      obtain ⟨g', rfl⟩ : ∃ g', g = g' + 1 := ⟨g - 1, by omega⟩
+      have hp := parseElemPair_of _ _ x y g' rest (printElem_noLeadWs _ x hx) (printElem_noLeadWs _ y hy)
+        (fun r => parseElem_print x _ g' r hx (by omega))
+        (fun r => parseElem_print y _ g' r hy (by omega))
+      simp only [printElem, List.cons_append, List.nil_append, List.append_assoc] at hp ⊢
+      simp [parseElem, hp]
+  theorem parseElemBracket_print : (xs : List Const) → ∀ (t : Ty) (f : Nat) (rest : List Token),
+      constsOk t xs = true → (printElems xs).length + 1 ≤ f →
+      parseElemBracket f t (.lbrack :: (printElems xs ++ .rbrack :: rest)) = some (xs, rest)
+    | [] => by
+      intro t f rest _ hf
+      obtain ⟨g, rfl⟩ : ∃ g, f = g + 1 := ⟨f - 1, by omega⟩
+      simpa [printElems] using parseElemBracket_nil g t rest
+    | c :: cs => by
+      intro t f rest hok hf
+      simp [constsOk] at hok
+      obtain ⟨g, rfl⟩ : ∃ g, f = g + 1 := ⟨f - 1, by omega⟩
+      rw [printElems_cons] at hf
+      have := printElem_length t c hok.1
+      simp at hf
+      exact parseElemBracket_of t c cs g rest (printElem_noLeadWs t c hok.1)
+        (fun r => parseElem_print c t g r hok.1 (by omega))
+        (parseElemMore_print cs t g rest hok.2 (by omega))
+  theorem parseElemMore_print : (xs : List Const) → ∀ (t : Ty) (f : Nat) (rest : List Token),
+      constsOk t xs = true → (printElemsTail xs).length + 1 ≤ f →
+      parseElemMore f t (printElemsTail xs ++ .rbrack :: rest) = some (xs, .rbrack :: rest)
+    | [] => by
+      intro t f rest _ hf
+      obtain ⟨g, rfl⟩ : ∃ g, f = g + 1 := ⟨f - 1, by omega⟩
+      simp [printElemsTail, parseElemMore]
+    | c :: cs => by
+      intro t f rest hok hf
+      simp [constsOk] at hok
+      obtain ⟨g, rfl⟩ : ∃ g, f = g + 1 := ⟨f - 1, by omega⟩
+      simp [printElemsTail, sepTokens] at hf
+      exact parseElemMore_of t c cs g rest (printElem_noLeadWs t c hok.1)
+        (fun r => parseElem_print c t g r hok.1 (by omega))
+        (parseElemMore_print cs t g rest hok.2 (by omega))
+end
+
+-- ------------------------------------------------------------------ constants after `con`
+theorem conKindOfWord_kw : ∀ k : ConKind, conKindOfWord (kwCon k) = some k := by
+  intro k; cases k <;> decide
+
+theorem parseTy_ws (f : Nat) (l : List Token) : parseTy f (.ws :: l) = parseTy f l := by
+  cases f <;> simp [parseTy]
+
+/-- `const_text_roundtrip` (with the rest of the input and explicit fuel): all constant types and nestings -/
+theorem parseConst_print (c : Const) (f : Nat) (rest : List Token) (hok : constOk c.ty c = true)
+    (hf : (printConst c).length ≤ f) : parseConst f (printConst c ++ rest) = some (c, rest) := by
+  cases c with
+  | integer n => simp [printConst, parseConst, conKindOfWord_kw, parseBigNumber_intChars]
+  | bytestring b => simp [printConst, parseConst, conKindOfWord_kw, hexDecode_hexChars]
+  | string s => simp [printConst, parseConst, conKindOfWord_kw, unescape_escape]
+  | unit => simp [printConst, parseConst, conKindOfWord_kw]
+  | bool b => simp [printConst, parseConst, conKindOfWord_kw, boolOfWord_boolWord]
+  | data d =>
+    simp [Const.ty, constOk] at hok
+    simp [printConst] at hf
+    have h1 := skipWs_of_noLeadWs (printData_noLeadWs d) (.rpar :: rest)
+    have h2 := parseData_print d f (.rpar :: rest) hok (by omega)
+    simp [printConst, parseConst, conKindOfWord_kw, h1, h2]
+  | g1 b => simp [printConst, parseConst, conKindOfWord_kw, parseBlsWord_blsWord]
+  | g2 b => simp [printConst, parseConst, conKindOfWord_kw, parseBlsWord_blsWord]
+  | ml b => simp [Const.ty, constOk] at hok
+  | list t xs =>
+    simp [Const.ty, constOk] at hok
+    simp [printConst] at hf
+    have h1 := parseTy_printTy t f (.rpar :: .ws :: .lbrack :: (printElems xs ++ .rbrack :: rest)) (by omega)
+    have h2 := parseElemBracket_print xs t f rest hok (by omega)
+    simp [printConst, parseConst, conKindOfWord_kw, parseTy_ws, h1, h2]
+  | pair a b x y =>
+    simp [Const.ty, constOk] at hok
+    simp [printConst, sepTokens] at hf
+    obtain ⟨g, rfl⟩ : ∃ g, f = g + 1 := ⟨f - 1, by omega⟩
+    have h0 := skipWs_of_noLeadWs (printTy_noLeadWs a)
+      (.ws :: (printTy b ++ .rpar :: .ws :: .lpar :: (printElem x ++ sepTokens ++ printElem y ++ .rpar :: rest)))
+    have h1 := parseTy_printTy a (g + 1)
+      (.ws :: (printTy b ++ .rpar :: .ws :: .lpar :: (printElem x ++ sepTokens ++ printElem y ++ .rpar :: rest))) (by omega)
+    have h2 := parseTy_printTy b (g + 1)
+      (.rpar :: .ws :: .lpar :: (printElem x ++ sepTokens ++ printElem y ++ .rpar :: rest)) (by omega)
+    have h3 := parseElemPair_of a b x y g rest (printElem_noLeadWs a x hok.1) (printElem_noLeadWs b y hok.2)
+      (fun r => parseElem_print x a g r hok.1 (by omega))
+      (fun r => parseElem_print y b g r hok.2 (by omega))
+    have h0b := skipWs_of_noLeadWs (printTy_noLeadWs b)
+      (.rpar :: .ws :: .lpar :: (printElem x ++ sepTokens ++ printElem y ++ .rpar :: rest))
+    simp only [List.append_assoc] at h0 h0b h1 h2 h3
+    simp [printConst, parseConst, conKindOfWord_kw, h0, h0b, h1, h2, h3]
+
+theorem printConst_noLeadWs (c : Const) (hok : constOk c.ty c = true) : NoLeadWs (printConst c) := by
+  cases c with
+  | ml b => simp [Const.ty, constOk] at hok
+  | _ => simp only [printConst, List.cons_append, List.nil_append]; exact ⟨_, _, rfl, by simp⟩
+
 end AikenVerif.Text
